@@ -8,13 +8,82 @@ P = {
  'b': dict(BS='b', UNIT='blake2b', W='u64', WBITS='64', BB='128', NROUNDS='12', TWLIT='0x1_0000_0000_0000_0000', R1='32', R2='24', R3='16', R4='63',
            IVLIT='0x6a09e667f3bcc908u64, 0xbb67ae8584caa73bu64, 0x3c6ef372fe94f82bu64, 0xa54ff53a5f1d36f1u64, 0x510e527fade682d1u64, 0x9b05688c2b3e6c1fu64, 0x1f83d9abfb41bd6bu64, 0x5be0cd19137e2179u64',
            LEWORD='(b[0] as int + b[1] as int * 0x100 + b[2] as int * 0x10000 + b[3] as int * 0x1000000 + b[4] as int * 0x100000000 + b[5] as int * 0x10000000000 + b[6] as int * 0x1000000000000 + b[7] as int * 0x100000000000000) as u64',
-           WBYTES='8', MAXOUT='64', HBYTES='64', WRITEFN='write_u64v_le', COMPRESSFN='compress_b', ENGINE='EngineB', MOD='blake2b', HASHTY='Blake2b'),
+           WBYTES='8', MAXOUT='64', HBYTES='64', WRITEFN='write_u64v_le', READFN='read_u64v_le', COMPRESSFN='compress_b', ENGINE='EngineB', MOD='blake2b', HASHTY='Blake2b'),
  's': dict(BS='s', UNIT='blake2s', W='u32', WBITS='32', BB='64', NROUNDS='10', TWLIT='0x1_0000_0000', R1='16', R2='12', R3='8', R4='7',
            IVLIT='0x6A09E667u32, 0xBB67AE85u32, 0x3C6EF372u32, 0xA54FF53Au32, 0x510E527Fu32, 0x9B05688Cu32, 0x1F83D9ABu32, 0x5BE0CD19u32',
            LEWORD='(b[0] as int + b[1] as int * 0x100 + b[2] as int * 0x10000 + b[3] as int * 0x1000000) as u32',
-           WBYTES='4', MAXOUT='32', HBYTES='32', WRITEFN='write_u32v_le', COMPRESSFN='compress_s', ENGINE='EngineS', MOD='blake2s', HASHTY='Blake2s'),
+           WBYTES='4', MAXOUT='32', HBYTES='32', WRITEFN='write_u32v_le', READFN='read_u32v_le', COMPRESSFN='compress_s', ENGINE='EngineS', MOD='blake2s', HASHTY='Blake2s'),
 }
+
+SIG = [[0, 1, 2, 3, 4, 5, 6, 7, 8, 9, 10, 11, 12, 13, 14, 15], [14, 10, 4, 8, 9, 15, 13, 6, 1, 12, 0, 2, 11, 7, 5, 3],
+       [11, 8, 12, 0, 5, 2, 15, 13, 10, 14, 3, 6, 7, 1, 9, 4], [7, 9, 3, 1, 13, 12, 11, 14, 2, 6, 5, 10, 4, 0, 15, 8],
+       [9, 0, 5, 7, 2, 4, 10, 15, 14, 1, 11, 12, 6, 8, 3, 13], [2, 12, 6, 10, 0, 11, 8, 3, 4, 13, 7, 5, 15, 14, 1, 9],
+       [12, 5, 1, 15, 14, 13, 4, 10, 0, 7, 6, 3, 9, 2, 8, 11], [13, 11, 7, 14, 12, 1, 3, 9, 5, 0, 15, 4, 8, 6, 2, 10],
+       [6, 15, 14, 9, 11, 3, 0, 8, 12, 2, 13, 7, 1, 4, 10, 5], [10, 2, 8, 4, 7, 6, 1, 5, 15, 11, 9, 14, 3, 12, 13, 0]]
+QUADS = [(0, 4, 8, 12), (1, 5, 9, 13), (2, 6, 10, 14), (3, 7, 11, 15), (0, 5, 10, 15), (1, 6, 11, 12), (2, 7, 8, 13), (3, 4, 9, 14)]
+
+
+def round_lemmas(d):
+    # round(v, m, r) written out with literal message-word indices, one small lemma per round
+    W = d['W']
+    o = []
+    for r in range(12):
+        sg = SIG[r % 10]
+        e = 'v'
+        for i, (a, b, c, dd) in enumerate(QUADS):
+            e = 'G(%s, %d, %d, %d, %d, m[%d], m[%d])' % (e, a, b, c, dd, sg[2 * i], sg[2 * i + 1])
+        o.append('pub proof fn lemma_round_%d(v: Seq<%s>, m: Seq<%s>)\n    ensures round(v, m, %d) == %s\n{ }' % (r, W, W, r, e))
+    o.append('pub proof fn lemma_rounds_step(v: Seq<%s>, m: Seq<%s>, n: int)\n    requires n >= 0\n    ensures rounds(v, m, n + 1) == round(rounds(v, m, n), m, n), rounds(v, m, 0) == v\n{ }' % (W, W))
+    return "\n".join(o)
+
+
+def compress_hints(d):
+    # proof hints for the unrolled compression function: the expansion leaves one lone `;` behind every G! (anchor `macro k`)
+    W = d['W']
+    o = []
+    o.append('//%% at fn-start')
+    o.append('    let ghost h0 = h@;')
+    o.append('    let ghost tv = t[0] as int + t[1] as int * TW();')
+    o.append('//%% at call 2 copy_from_slice after')
+    o.append('    let ghost m = ms@;')
+    o.append('    let ghost va = vs@;')
+    o.append('    proof {')
+    o.append('        assert(%s::IV@ =~= IV());' % d['BS'])
+    o.append('        assert(va =~= h0 + IV());')
+    o.append('        assert(m == words_of(buf@));')
+    o.append('        assert((tv %% TW()) as %s == t[0] && ((tv / TW()) %% TW()) as %s == t[1]) by (nonlinear_arith)' % (W, W))
+    o.append('            requires tv == t[0] as int + t[1] as int * TW(), TW() == %s, 0 <= t[0] < %s, 0 <= t[1] < %s;' % (d['TWLIT'], d['TWLIT'], d['TWLIT']))
+    o.append('    }')
+    o.append('    let ghost v1 = va.update(12, va[12] ^ t[0]).update(13, va[13] ^ t[1]);')
+    o.append('    let ghost v2 = if last == LastBlock::Yes { v1.update(14, !v1[14]) } else { v1 };')
+    o.append('    let ghost g0 = v2;')
+    k = 0
+    for r in range(12):
+        sg = SIG[r % 10]
+        for i, (a, b, c, dd) in enumerate(QUADS):
+            k += 1
+            o.append('//%%%% at macro %d' % k)
+            o.append('    proof { assert(vs@ =~= G(g%d, %d, %d, %d, %d, m[%d], m[%d])); }' % (k - 1, a, b, c, dd, sg[2 * i], sg[2 * i + 1]))
+            o.append('    let ghost g%d = vs@;' % k)
+            if i == 7:
+                o.append('    proof {')
+                o.append('        lemma_round_%d(g%d, m);' % (r, k - 8))
+                o.append('        assert(g%d == round(g%d, m, %d));' % (k, k - 8, r))
+                o.append('        lemma_rounds_step(v2, m, %d);' % r)
+                o.append('        assert(g%d == rounds(v2, m, %d));' % (k, r + 1))
+                o.append('    }')
+    o.append('//%% at text 1 h[7] ^= after')
+    o.append('    proof {')
+    o.append('        reveal(F);')
+    o.append('        let v = rounds(v2, m, %s);' % d['NROUNDS'])
+    o.append('        assert(vs@ == v);')
+    o.append('        assert forall|i: int| 0 <= i < 8 implies #[trigger] h@[i] == h0[i] ^ v[i] ^ v[i + 8] by { lemma_xor_assoc(h0[i], v[i], v[i + 8]); }')
+    o.append('        assert(h@ =~= F(h0, tv, buf@, last == LastBlock::Yes));')
+    o.append('    }')
+    return "\n".join(o)
+
 for k, d in P.items():
+    d = dict(d, COMPRESS_HINTS=compress_hints(d), ROUND_LEMMAS=round_lemmas(d))
     o = t
     import re as _re
     o = _re.sub(r'//@@ only (\w)\n(.*?)//@@ end only\n', lambda m: m.group(2) if m.group(1) == k else '', o, flags=_re.S)
